@@ -860,7 +860,7 @@ class Hist:
             else:
                 k = rng.randint(0, 15)
                 s.emit("iref %d %d" % (i, k), None, "iter-ref", (i, k))
-        elif r < 0.92:
+        elif r < 0.905:
             p = s.pick_path(v, True)
             n = v.resolve(None if p == "@" else p)
             if n is None:
@@ -875,7 +875,15 @@ class Hist:
             else:
                 e = sorted(k.name or '""' for k in n.kids.values() if k.isset)
                 s.emit("ls %d %s" % (c, p), "ls ok " + (",".join(e) or "-"), "ls")
-        elif r < 0.925 and not overlay:
+        elif r < 0.917 and not overlay:
+            # a value the key's pre-set hook refuses: the call fails and nothing changes (not even the directories above the key)
+            p, tok, st = rng.choice([("arch.page_size", "num:3", "corrupt"), ("arch.page_size", "num:0", "corrupt"), ("arch.page_size", "num:4097", "corrupt"),
+                                     ("arch.page_shift", "num:200", "corrupt"), ("arch.page_shift", "num:64", "corrupt"), ("cache.size", "num:0", "invalid")])
+            s.emit("badset %d %s %s %s" % (c, p, tok, st), "set " + st, "exact")
+            par = World.find(s.world.root, p.rsplit(".", 1)[0])
+            s.emit("get %d %s" % (c, p.rsplit(".", 1)[0]), "get " + s.exp_get(par), "exact")
+            s.emit("dump %d" % c, s.exp_dump(), "dump")
+        elif r < 0.929 and not overlay:
             # kdump_set_filename: grows the file set to one file if needed (never shrinks it), sets or forgets file.set.0.name
             nm = rng.choice(["-", hexs("/var/crash/dump.%d" % rng.randrange(100))])
             num = World.find(s.world.root, "file.set.number")
